@@ -494,6 +494,30 @@ func (g *GoBackNConn) sendPacketsForever() error {
 				if err := resendQueue(); err != nil {
 					return err
 				}
+
+			case <-g.pingTicker.Ticks():
+				// The keepalive must also work while we are
+				// waiting on a full queue, otherwise a peer
+				// that went silent is never detected. We can't
+				// add a ping packet to the full queue, but the
+				// packets that are in flight (and that get
+				// resent above) serve as the ping: any response
+				// to them pauses the pong timer again.
+				select {
+				case <-g.pongTicker.Ticks():
+					return errKeepaliveTimeout
+				default:
+				}
+
+				// Start the pong timer.
+				g.pongTicker.Reset()
+				g.pongTicker.Resume()
+
+				// Also reset the ping timer.
+				g.pingTicker.Reset()
+
+			case <-g.pongTicker.Ticks():
+				return errKeepaliveTimeout
 			}
 		}
 	}
